@@ -122,7 +122,20 @@ func Origins(v ssa.Value) []ssa.Value {
 			roots = append(roots, v)
 		case *ssa.UnOp:
 			if x.Op == token.MUL {
-				// load: from a local/captured cell → the stored values
+				// load from a cell of this function: the stores that reach it
+				if al, ok := x.X.(*ssa.Alloc); ok {
+					sts, zero := ReachingStores(x)
+					for _, s := range sts {
+						rec(s.Val)
+					}
+					if zero {
+						roots = append(roots, al)
+					}
+					if len(sts) > 0 || zero {
+						return
+					}
+				}
+				// load from a captured cell: every store (flow-insensitive)
 				cell := ResolveFree(x.X)
 				if al, ok := cell.(*ssa.Alloc); ok {
 					st := StoresTo(al)
@@ -298,4 +311,146 @@ func ParamsOfType(fn *ssa.Function, ts string) []*ssa.Parameter {
 		}
 	}
 	return out
+}
+
+// ReachingStores returns the stores to the cell loaded by ld (an Alloc of the
+// same function) that may reach it, searching backwards over the CFG; zero
+// reports that the function entry (cell still zero) may reach it. Stores made
+// by closures that captured the cell and are called/started/deferred on the
+// way are included (the search continues past them).
+func ReachingStores(ld *ssa.UnOp) (stores []*ssa.Store, zero bool) {
+	al, ok := ld.X.(*ssa.Alloc)
+	if !ok {
+		return nil, false
+	}
+	// closures that write the cell
+	writers := map[*ssa.Function][]*ssa.Store{}
+	for _, st := range StoresTo(al) {
+		if st.Parent() != ld.Parent() {
+			f := st.Parent()
+			// attribute to the outermost closure created in ld's function
+			for f.Parent() != nil && f.Parent() != ld.Parent() {
+				f = f.Parent()
+			}
+			writers[f] = append(writers[f], st)
+		}
+	}
+	seenStore := map[*ssa.Store]bool{}
+	add := func(s *ssa.Store) {
+		if !seenStore[s] {
+			seenStore[s] = true
+			stores = append(stores, s)
+		}
+	}
+	closureOf := func(v ssa.Value) *ssa.Function {
+		for _, o := range originsNoLoad(v) {
+			if mc, ok := o.(*ssa.MakeClosure); ok {
+				return mc.Fn.(*ssa.Function)
+			}
+		}
+		return nil
+	}
+	type item struct {
+		b   *ssa.BasicBlock
+		idx int // scan instructions idx-1 .. 0
+	}
+	loc := LocOf(ld)
+	work := []item{{loc.B, loc.Idx}}
+	seenBlock := map[*ssa.BasicBlock]bool{}
+	for len(work) > 0 {
+		it := work[len(work)-1]
+		work = work[:len(work)-1]
+		stopped := false
+		for i := it.idx - 1; i >= 0; i-- {
+			in := it.b.Instrs[i]
+			if st, ok := in.(*ssa.Store); ok && st.Addr == ssa.Value(al) {
+				add(st)
+				stopped = true
+				break
+			}
+			if in == ssa.Instruction(al) {
+				zero = true
+				stopped = true
+				break
+			}
+			if cc := CallOf(in); cc != nil && len(writers) > 0 {
+				if f := closureOf(cc.Value); f != nil {
+					for _, s := range writers[f] {
+						add(s)
+					}
+				}
+				for _, a := range cc.Args {
+					if f := closureOf(a); f != nil {
+						for _, s := range writers[f] {
+							add(s)
+						}
+					}
+				}
+			}
+			if _, ok := in.(*ssa.RunDefers); ok && len(writers) > 0 {
+				// deferred closures of this function may have written the cell
+				Instrs(ld.Parent(), func(d ssa.Instruction) {
+					if df, ok := d.(*ssa.Defer); ok {
+						if f := closureOf(df.Call.Value); f != nil {
+							for _, s := range writers[f] {
+								add(s)
+							}
+						}
+					}
+				})
+			}
+		}
+		if stopped {
+			continue
+		}
+		if len(it.b.Preds) == 0 {
+			zero = true
+			continue
+		}
+		for _, pb := range it.b.Preds {
+			if seenBlock[pb] {
+				continue
+			}
+			seenBlock[pb] = true
+			work = append(work, item{pb, len(pb.Instrs)})
+		}
+	}
+	return stores, zero
+}
+
+// originsNoLoad is Origins without following loads (used to avoid recursion).
+func originsNoLoad(v ssa.Value) []ssa.Value {
+	seen := map[ssa.Value]bool{}
+	var roots []ssa.Value
+	var rec func(v ssa.Value)
+	rec = func(v ssa.Value) {
+		if v == nil || seen[v] {
+			return
+		}
+		seen[v] = true
+		switch x := v.(type) {
+		case *ssa.Phi:
+			for _, e := range x.Edges {
+				rec(e)
+			}
+		case *ssa.ChangeType:
+			rec(x.X)
+		case *ssa.MakeInterface:
+			rec(x.X)
+		case *ssa.UnOp:
+			if x.Op == token.MUL {
+				if al, ok := x.X.(*ssa.Alloc); ok {
+					for _, s := range StoresTo(al) {
+						rec(s.Val)
+					}
+					return
+				}
+			}
+			roots = append(roots, v)
+		default:
+			roots = append(roots, v)
+		}
+	}
+	rec(v)
+	return roots
 }
